@@ -303,6 +303,8 @@ DerivedClauses(e) ==
           Cl("C18.total.derived", kn /\ claim, ok),
           Cl("C04.borrow", kn, SameOutcome(e.out, e.bl) /\ SameOutcome(e.out, e.br) /\ SameOutcome(e.out, e.bb)),
           Cl("C05.unit_of_result", kn /\ ok, KU(Res, ru)),
+          \* the unit choice is the same for the owned and the borrowed operand forms
+          Cl("C05.borrowed_forms", kn, SameOutcome(e.out, e.bl) /\ SameOutcome(e.out, e.br) /\ SameOutcome(e.out, e.bb)),
           Cl("C04.mag", knr /\ inr,
                  IsFin(amt) /\ XLe(XMul(XAbsDiff(XMul(XMul(amt, S), d), n), tS.lm), tS.tol)),
           Cl("C04.inverse", knr /\ inr /\ Has(e, "back") /\ Ok(e.back) /\ ~XIsZero(b) /\ (BE = "f64" \/ REGIME = "exact")
